@@ -2,7 +2,30 @@ OUTSIDE = ("data-race freedom of fields touched INSIDE internal (_nolock) functi
            "mutex / condition variable / thread create+join are contract stubs); more than two API threads plus the reload "
            "threads they spawn; more than two context switches per pair of calls (thread B's whole call runs at ONE "
            "synchronisation point of thread A); the Windows/macOS configuration watchers; wall-clock liveness")
-ASSUMPTIONS = []
+ASSUMPTIONS = [
+    "locks are ghost depth counters: a lock never blocks because, in the sequentialisation, no other thread runs while it is held "
+    "(sched.h); in the one-thread harnesses (lockheld, evthread) other threads are not modelled at all - only the discipline is checked",
+    "c11_reinit: ares_thread_create = spawn (child may finish at once) / yield / store handle, or fail without touching the slot; "
+    "ares_thread_join = child runs to completion if it has not yet, DEADLOCK asserted if the joiner holds the channel lock then; the child "
+    "is the REAL ares_reinit_thread run atomically at a point where the lock is free; ares_init_by_sysconfig returns any status; "
+    "ares_threadsafety() is true; thread B's whole call runs at ONE synchronisation point of A",
+    "c11_reinit_destroy: thread A is the event thread (Linux: ares_event_configchg_destroy only queues the removal, the inotify "
+    "callback calls ares_reinit from the event thread until it is joined); ares_destroy's teardown after ares_event_thread_destroy "
+    "takes effect after A returned; no outstanding requests and no servers (stubs return empty lists)",
+    "c11_waitempty: pthread wrappers of ares_threads.c replaced by contract stubs (mutex = depth counter, condition wait = release / "
+    "others change the queue / re-acquire / SUCCESS or ETIMEOUT, spurious wake-ups included); queue abstracted to its length 0..2 "
+    "behind ares_llist_len; clock = arbitrary monotonic value, seconds up to 2^40 + 2^22 per step; ares_timeval_remaining replaced "
+    "by its contract (checked on the real function in c11_timeval_remaining); at most 2 (thorough 3) wake-ups per call; <pthread.h> "
+    "is not parsed (goto-cc rejects it with the framework's feature macros), pthread_* are declared by hand",
+    "c11_notify_callers: reference containers slist_ref / szvp_ref, abstract records, callbacks re-enter at depth 1",
+    "c11_lockheld: every callee of a wrapper is a stub (lh_stubs.c): workers assert the lock and return any status, request workers "
+    "call the completion callback at most once and exactly once when they return failure (contract checked in C01), public "
+    "neighbours (ares_getaddrinfo, ares_save_options, ares_get_servers_csv in the ares_dup / ares_gethostbyname jobs) take the lock "
+    "themselves; allocation may fail anywhere; containers are a fixed mini world (0..2 servers x 0..2 connections, 0..1 timed request); "
+    "entry depth of the lock is 0 (calls from inside a callback, where the recursive lock is already held, are not separately run)",
+    "c11_evthread_order: event back end (ev_sys), update queue, socket table and event allocator are typed mini stubs; function "
+    "pointers of the event back end restricted to the harness' functions (goto-instrument --restrict-function-pointer); one socket; "
+    "one socket-state change and one pending-write request per run; table insertion never fails"]
 
 def jobs(tier, seed):
     J = []
@@ -166,7 +189,7 @@ def lockheld_jobs(tier):
 def evthread_jobs(tier):
     J = []
     names = ["loop", "update", "sockstate_cb", "notifywrite_cb"]
-    wit = [["end", "event mutex taken while the channel lock is held", "called into the channel", "all iterations"],
+    wit = [["end", "event mutex taken while the channel lock is held", "called into the channel", "all iterations", "end-of-iteration processing ran"],
            ["end", "queued", "rejected"], ["end", "woken"], ["end"]]
     for op in range(4):
         J.append(dict(name="c11_evthread_order_%s" % names[op], harness="evthread.c",
